@@ -37,7 +37,7 @@ func modeOf(i int) string {
 func init() {
 	fw.Register(&fw.Prop{
 		ID: "C17",
-		Rule: "case i is a CSS document (i mod 28 = 0: 1–5 boxes — absolutely positioned with a generator-modelled border box, or static/relative/inline-block/float with the border box read from the trace, nested up to 3 deep — each with a transform list of ≤ 4 functions over all 2D function forms, all length and angle units, number spellings, and a transform-origin in every syntactic form), an SVG document (i mod 28 ∈ {1,2}: nested <g>/<rect> with transform attributes of ≤ 4 functions; drawn directly, inline in HTML or through <img>), or a triple of random matrices with entries in [−100,100] plus operands for every matrix operation (other i). " +
+		Rule: "case i is a CSS document (i mod 28 = 0: 1–12 boxes — absolutely positioned with a generator-modelled border box, or static/relative/inline-block/float with the border box read from the trace, nested up to 3 deep — each with a transform list of ≤ 4 functions over all 2D function forms, all length and angle units incl. the font-relative em/ex/ch/rem, number spellings, and a transform-origin in every syntactic form; the declarations reach the element through a rule of its own, its style attribute, `inherit` from its parent, or — in half of the documents — one rule shared by several elements of different font sizes and border boxes (class, attribute, type or grouped-id selector), the rule standing in the <style> element, a linked sheet or a user sheet), an SVG document (i mod 28 ∈ {1,2}: nested <g>/<rect> with transform attributes of ≤ 4 functions; drawn directly, inline in HTML or through <img>), or a triple of random matrices with entries in [−100,100] plus operands for every matrix operation (other i). " +
 			"The first CSS and SVG documents enumerate every function form as a single-function list. " +
 			"A case is non-trivial when at least one non-identity transform list was observed at GraphicState.Transform and compared with the reference product (css, svg), or when all laws were evaluated on the triple (laws); distinct = distinct input.",
 		N: func(tier string) int {
@@ -78,6 +78,8 @@ func init() {
 			"comparison tolerance is 4× a first-order forward error bound of a float32 evaluation of the same product (scaled by the operands of the case), plus 1e-6",
 			"the border box of non-absolutely-positioned boxes is read from the rectangle painted for the box's own background (layout itself is C10's subject)",
 			"a box / SVG element is identified in the trace by its unique background / fill colour",
+			"every CSS document sets font-family Ahem on body: 1ex = 0.8em (the font's x-height) and 1ch = 1em (advance of '0'); these two ratios are the only font metrics the model uses",
+			"one declared value shared by several elements is computed per element (font-relative lengths against the element's own font size, percentages against its own border box); an inherited value keeps the absolute lengths computed for the parent (CSS Cascade 4 §4.2, CSS Values 3 §5.1.1)",
 			"skew angles are kept within |tan| ≤ 60; exactly singular lists are only checked for 'no Transform call' (CSS: also 'warning logged, box not painted')",
 		},
 		Batch: 2800,
@@ -134,9 +136,23 @@ func counterFloors(tier string) map[string]int64 {
 	for _, f := range []string{"translate1", "translate2", "translateX1", "translateY1", "scale1", "scale2", "scaleX1", "scaleY1", "rotate1", "matrix6"} {
 		m["css_fn_"+f] = 150 * k
 	}
-	for _, u := range []string{"px", "%", "pt", "pc", "in", "cm", "mm", "q", "em", "rem", "deg", "grad", "rad", "turn"} {
+	for _, u := range []string{"px", "%", "pt", "pc", "in", "cm", "mm", "q", "em", "rem", "ex", "ch", "deg", "grad", "rad", "turn"} {
 		m["css_unit_"+u] = 40 * k
 	}
+	// how the declaration reaches the element (shared rules, style attribute, inherit, sheets)
+	for _, v := range []string{"id", "style", "class", "attr", "type", "group", "inherit"} {
+		m["css_via_"+v] = 40 * k
+	}
+	for _, v := range []string{"style", "link", "user"} {
+		m["css_sheet_"+v] = 100 * k
+	}
+	m["css_shared_lists_checked"] = 600 * k
+	m["css_shared_later_member"] = 250 * k
+	m["css_shared_fontrel_other_fs"] = 80 * k
+	m["css_shared_percent"] = 40 * k
+	m["css_inherit_checked"] = 60 * k
+	m["css_inherit_fontrel_other_fs"] = 20 * k
+	m["css_inherit_origin"] = 15 * k
 	for _, o := range []string{"initial", "keyword", "lp", "kw-kw", "kw-kw-swapped", "lp-kw", "kw-lp", "lp-lp"} {
 		m["css_origin_"+o] = 40 * k
 	}
